@@ -267,11 +267,10 @@ func c07(c *Ctx) {
 	c.Reject(cfo, strict, "$r.lastHeaderStream == 0", "$0.Type == @http2.FrameContinuation")
 	lhs := Stores("http2.Framer.lastHeaderStream")
 	c.Writers("http2.Framer.lastHeaderStream", cfo)
-	c.Guard(cfo, lhs.StoredIs("0"), "Has($0.Flags,"+k("FlagHeadersEndHeaders")+")")
-	c.Guard(cfo, lhs.StoredIs("$0.StreamID"), "!Has($0.Flags,"+k("FlagHeadersEndHeaders")+")")
-	c.Count(cfo, lhs, 2, 2)
-	c.Count(cfo, lhs.StoredIs("0"), 1, 1)
-	c.Count(cfo, lhs.StoredIs("$0.StreamID"), 1, 1)
+	c.StoredUnder(cfo, lhs, map[string]string{
+		"0":           "Has($0.Flags," + k("FlagHeadersEndHeaders") + ")",
+		"$0.StreamID": "!Has($0.Flags," + k("FlagHeadersEndHeaders") + ")",
+	})
 	c.Guard(cfo, lhs, "!$r.AllowIllegalReads")
 	// the stores happen for HEADERS and CONTINUATION only: a frame of any other type never reaches them
 	// (form-independent: holds for `switch fh.Type { case FrameHeaders, FrameContinuation: }` and for an if with ||)
